@@ -46,6 +46,14 @@ CLAIMED["C15"] = ("property-based testing (Hypothesis): generated syntax trees p
          "Exploration: every node kind incl. all slice layouts; the re-parsed tree must equal the printed tree node for node with spans = first..last token; minimal and fully parenthesised prints must group identically (precedence table, left associativity); a ParseError must name a token of the input.",
          "Trusts the printer pbt/gen/printer.py (precedence table from the specification; it records the byte range of every node) and the reference lexer used to place mandatory spaces.",
          "DESIGN.md section 5 / C15")
+CLAIMED["C10"] = ("property-based testing (Hypothesis): recursion shapes x depth x increasing sweeps of the frame limit, with a deterministic step budget; monotonicity/threshold oracles",
+         "Exploration: 60+ recursion shapes (calls, thunk chains, nested values through comparison/conversion/manifestation/stdlib walkers, self-referential values) x depths x limits; outcomes along a sweep must be StackOverflow* then one stable outcome, cycles must end in InfiniteRecursion/StackOverflow, never a crash or an exhausted step budget.",
+         "Hangs are decided by the verif-hooks step budget (fuel), not by wall clock; shapes whose output size is quadratic in the depth are capped; five builtins that loop on infinitely nested values are open known findings (D16).",
+         "DESIGN.md section 5 / C10")
+CLAIMED["C16"] = ("property-based testing (Hypothesis): span-manager scripts against a list model; failing programs (templates, generated trees, mutated corpus) checked for in-file spans in-process and for rendered file/line/column and trace cropping through the real binary",
+         "Exploration: registrations with context lengths up to 2^40 and span lengths around 2^25 must round-trip; every span of every error and stack-trace entry must lie inside the file it names; the rendered report (plain/coloured, every --max-trace) must exit 1 without panic text and name the primary span's file, line and column.",
+         "Trusts the in-process error dump of the engine (public error enums) and compares the binary's first `-->` line with the primary span computed in-process on the same bytes; columns are only judged when the line prefix is printable ASCII (tabs are expanded by the renderer).",
+         "DESIGN.md section 5 / C16")
 NOT_YET = {}
 
 def main():
